@@ -279,6 +279,29 @@ def evaluate(case, out):
     _judge(out, contests, ret2, done2, set(), before=before, tag="second:")
     if any(before.values()):
         feats.add("second-round-after-confirmation")
+    # a later computation on a sample that holds no card of one contest: nothing can have been learned about it, so either the
+    # library refuses (the tests do not take empty samples) or that contest's records say exactly that: p = 1, no history
+    if us:
+        target = next((cid for cid, con in contests.items() if con.audit_type != "POLLING"
+                       and any(not c.has_contest(cid) for c in cvrs) and any(c.has_contest(cid) for c in cvrs)), None)
+        if target is not None:
+            keep = [i for i, c in enumerate(cvrs) if not c.has_contest(target)]
+            cs3, ms3 = [cvrs[i] for i in keep], [mvrs[i] for i in keep]
+            try:
+                with contextlib.redirect_stdout(io.StringIO()):
+                    Assertion.set_p_values({target: contests[target]}, ms3, cs3)
+                refused = False
+            except Exception:  # noqa
+                refused = True
+            if refused:
+                out.cls("empty-sample-refused")
+            else:
+                out.cls("empty-sample-accepted")
+                con = contests[target]
+                for k, a in con.assertions.items():
+                    out.expect(float(a.p_value) == 1.0 and len(a.p_history) == 0, "empty-sample:records-not-those-of-an-empty-sample",
+                               lambda: (target, k, a.p_value, len(a.p_history)))
+                out.expect(float(con.max_p) == 1.0, "empty-sample:contest-risk!=1", lambda: (target, con.max_p))
     _reset(out, contests)
     lims = {con.risk_limit for con in contests.values()}
     out.cls("pipeline", *sorted(feats))
